@@ -1,6 +1,7 @@
 import FractopoModel.Model.Cli
 import FractopoModel.Generated.Cli
 import FractopoModel.Generated.ErrorColumn
+import FractopoModel.Generated.GeoReader
 import FractopoModel.Spec.Validators
 /-!
 # C19 — CLI and file round trips
@@ -122,5 +123,26 @@ theorem C19_error_column_shapefile_name (col : List Char) :
 example : String.ofList (Gen.error_column_trunc Gen.error_column) = "VALIDATION" ∧ String.ofList Gen.error_column = "VALIDATION_ERRORS" := by decide
 
 example : String.ofList (pyTupleReprC ["V NODE".toList]) = "('V NODE',)" ∧ pyTupleReprC [] = "()".toList := by decide
+
+
+/-! ## the package's reader (regenerated `read_geofile`) -/
+
+/-- **The reader returns what the file holds now.** Regenerated `read_geofile` in closed form: the frame `gpd.read_file` returns for the path at the time of the call,
+TypeError when that is not a frame — nothing else enters (the item also checks that the function carries no decorator: no memo per path). -/
+theorem C19_generated_reader {D : Type} (read_ : String → D) (is_frame : D → Bool) (p : String) :
+    Gen.read_geofile read_ is_frame p = if is_frame (read_ p) then .ok (read_ p) else .error "TypeError" := by
+  unfold Gen.read_geofile
+  cases h : is_frame (read_ p) <;> simp [h]
+
+/-- … so over any history of the file system — a path written, read, REWRITTEN — a read after the last write gives the last content written (and an earlier read the
+earlier content): with the model's file system `Cli.FS` as the state behind `gpd.read_file`. -/
+theorem C19_reader_sees_the_rewritten_file {C : Type} (fs : Cli.FS C) (p : String) (a b dflt : C) :
+    Gen.read_geofile (fun q => ((fs.write p a) q).getD dflt) (fun _ => true) p = .ok a ∧
+    Gen.read_geofile (fun q => (((fs.write p a).write p b) q).getD dflt) (fun _ => true) p = .ok b := by
+  simp [C19_generated_reader, Cli.FS.write]
+
+example : Gen.read_geofile (fun q => ((Cli.FS.write (Cli.FS.write (fun _ => none) "t.gpkg" (5 : Nat)) "t.gpkg" 4) q).getD 0) (fun _ => true) "t.gpkg" = .ok 4 := by
+  simp [C19_generated_reader, Cli.FS.write]
+
 
 end C19
